@@ -27,10 +27,20 @@
   survivors keep relative order and multiplicity            `exclusion_repaired`, `filterRegex_hosts` (list equalities)
   never CONTACTED / the others are contacted                `excluded_never_contacted` (C03's fan-out LTS imported)
   always terminates whatever the size of the exclusions     `pipeline_terminates`, `pushHostlist_terminates`,
-                                                              `exclusion_file_whole`; FALSE from 2^22 - 1 bytes of
-                                                              ranged exclusion FILE on: `exclusion_file_cut`
-                                                              (F02-XFILE-4MIB, open), `exclusion_file_repaired`;
+                                                              `pushHostlistR_terminates_whole`, `exclusion_file_whole`
+                                                              (the loop of /repo b20e58e: NO ceiling, the entry is the
+                                                              whole text or — from 2^63-1 bytes on — `errx`); the loop
+                                                              as it was before (F02-XFILE-4MIB, FIXED):
+                                                              `exclusion_file_ceiling_whole`, `exclusion_file_cut`;
                                                               unchanged D2: `pushHostlist_unchanged_diverges`
+  a recognisable class of command lines                     `domain_syntactic`, `entry_ok_syntactic`,
+                                                              `exclusion_correct_syntactic` (`SynOk`: a Boolean on the
+                                                              words, computed without the model ⇒ `Domain`, `EntryOk`)
+  rank of a host = its index in the final list              `rank_is_index` (the list OBJECT `cliWordsL`; C01 `iter_all`
+                                                              imported), `contacted_with_rank` (C09 `rank_is_position`
+                                                              and C03's fan-out imported)
+  the driver executes the definitions of the theorems       `fast_path_is_model`, `fast_path_is_cliFinal` (the linear
+                                                              path Opt/ExcludeFast.lean = `cliFinalW`, every input)
   Witnesses (`decide`): D1, F02-2BR end to end through `cliFinal`; instances derived THROUGH the theorems:
   `exclusion_correct_instance`, `exclusion_correct_options_instance`, the examples after each theorem.
 
@@ -38,14 +48,21 @@
 
   NOT proved: `hostlist_filter_regex` for the UNCHANGED `hostlist_remove` (D19: the iterator revisits hosts; the
   test is idempotent; correspondence only — /repo carries the repair); exclusion words whose names have a numeric
-  tail > 2^25 (`SmallName`, F16-BIGSUFFIX at the library level); an exclusion FILE whose ranged text reaches 4 MiB
-  (the model stops with `ub`, the real pdsh is compared with the specification only); that dsh.c refines C03's
-  LTS and that `dsh()` numbers the targets in list order (C03's trace correspondence; C01 `iter_all`); that the
-  text-level reading of the oracle (`Spec.classify`) gives EVERY well-formed word its meaning (`ReadsRight` is a
-  decidable hypothesis of `oracle_is_spec`; the general statement belongs to C01's specification).
+  tail > 2^25 (`SmallName`, F16-BIGSUFFIX at the library level); that dsh.c refines C03's LTS (C03's trace
+  correspondence) and that `dsh()` is the loop `dshThreads` describes (read off dsh.c:1135-1142, checked by the exec
+  observations of the check: `%n` is C09's); `SynOk` ⇒ `Domain` for TWO-bracket words and for names longer than 15
+  characters (there `Domain` stays a per-command-line decidable hypothesis); `SynOk` is stated on the words by meaning
+  (`CW`), the step from the argv TEXT to the words is `oracle_is_spec`'s `ReadsRight` (C01's `Spec.classify`);
+  exclusion FILES in the syntactic class (C10's `targetDomain` asks their ranged text to be < 4095 bytes; the model
+  itself, `exclusion_file_whole`, has no such bound).
 -/
 import PdshVerif.Opt.ExcludeContact
 import PdshVerif.Opt.ExcludeBridge
+import PdshVerif.Opt.ExcludeSyntax
+import PdshVerif.Opt.ExcludeFast
+import PdshVerif.Opt.ExcludeRank
+import PdshVerif.Props.C01
+import PdshVerif.Props.C09
 import PdshVerif.Props.C10
 
 namespace PdshVerif.C02
@@ -182,6 +199,42 @@ theorem exclusion_correct_instance :
     cliWords Cfg.repaired demoEnv (demoWords.map CW.text) = .ok ["foo1".toList, "bar".toList] :=
   demo_correct
 
+
+/-! ### a recognisable class of command lines -/
+/-- SYNTAX ⇒ DOMAIN.  `SynOk` (Opt/ExcludeSyntax.lean) is a decidable predicate on the WORDS of the command line,
+    computed without the list model: ≥ 1 target word; every target / exclusion word a well-formed expression (C01's
+    `WF`, `wordDom`) with at most one bracket pair whose first character makes `wcoll_arg_process` take it as a host
+    word; every name at most 15 characters; every excluded name ending in at most 7 digits.  It implies every
+    model-level hypothesis of `Domain` — `EntryOk` of every exclusion entry (`entry_ok_syntactic`), the bound on the
+    assembled numbers — so that `exclusion_correct` holds for the whole class, not per instance.  What remains is
+    about the ENVIRONMENT: `regcomp` accepts the patterns and the oracle table answers for them. -/
+theorem domain_syntactic (cfg : Cfg) (env : Env) (ws : List CW) (hs : SynOk cfg ws = true)
+    (hre : ∀ p ∈ regs ws, env.badre p.2 = false)
+    (ho : ∀ p ∈ regs ws, ∀ h ∈ Spec.expand₁ (tgts ws), (env.rematch p.2 h).isSome = true) : Domain cfg env ws :=
+  domain_of_syntax cfg env ws hs hre ho
+
+/-- one exclusion entry: the text of a well-formed word whose names are short and end in at most 7 digits parses, its
+    temporary list is in order and it denotes exactly the names the word stands for -/
+theorem entry_ok_syntactic (cfg : Cfg) (w : Spec.Word) (hw : w.WF = true) (hd : wordDom cfg w)
+    (hn : ∀ n ∈ w.expand₁, nameOk n = true) : EntryOk cfg (Spec.renderWord w) w.expand₁ :=
+  entryOk_of_syntax cfg w hw hd hn
+
+/-- EXCLUSION CORRECT FOR THE SYNTACTIC CLASS: no hypothesis mentions the model -/
+theorem exclusion_correct_syntactic (cfg : Cfg) (hD1 : cfg.fixDeleteAll = true) (hD17 : cfg.fixIterSuffix = true)
+    (hD19 : cfg.fixRemoveDepth = true) (env : Env) (ws : List CW) (hs : SynOk cfg ws = true)
+    (hre : ∀ p ∈ regs ws, env.badre p.2 = false)
+    (ho : ∀ p ∈ regs ws, ∀ h ∈ Spec.expand₁ (tgts ws), (env.rematch p.2 h).isSome = true) :
+    cliWords cfg env (ws.map CW.text) = .ok (specWords env ws) ∧ (cliWords cfg env (ws.map CW.text)).ends = true :=
+  ⟨exclusion_correct cfg hD1 hD17 hD19 env ws (domain_of_syntax cfg env ws hs hre ho),
+   cliWords_ends cfg hD1 hD17 hD19 env ws (domain_of_syntax cfg env ws hs hre ho)⟩
+
+/-- non-vacuity: the demo command line is in the class (ONE `decide` of a Boolean on the words), and so is a command
+    line with a padded range, a suffix and a bracketed exclusion: `-w node[08-11]-ib,x9 -x node[09-10]-ib,x9` -/
+example : SynOk Cfg.repaired demoWords = true ∧
+    SynOk Cfg.repaired
+      [.tgt (.br "node".toList [⟨"08".toList, some "11".toList⟩] "-ib".toList none), .tgt (.plain "x9".toList),
+       .xcl (.br "node".toList [⟨"09".toList, some "10".toList⟩] "-ib".toList none), .xcl (.plain "x9".toList)] = true := by
+  constructor <;> decide
 
 /-! ### order independence OF THE MODEL, the option level, termination -/
 /-- REGARDLESS OF THE ORDER (the model, not only the specification): `b` is a permutation of the words `a` in
@@ -330,11 +383,78 @@ example : ∃ ls s, Dsh.Fan.Exec (Dsh.Fan.init .whileWait 1 ["foo1".toList, "bar
   rw [hs] at hd
   exact Option.some.inj hd
 
-/-! ### the buffer loop of `list_push_hostlist` (D2) -/
-/-- TERMINATION (repaired D2): the loop stops within 12 doublings whatever the length of the
-    exclusion text -/
+/-! ### the final list as an object: the rank of a host is its index (C02 ∘ C01 ∘ C09 ∘ C03) -/
+/-- RANK = INDEX IN THE FINAL LIST.  Inside `Domain`, `opt_args` leaves in `opt->wcoll` a list OBJECT `L`
+    (`cliWordsL`; `cliWords` is its denotation) that is good and denotes the specification's hosts; `dsh()` walks it
+    with a fresh iterator — C01 `iter_all` imported: `hostlist_next` until NULL hands out exactly `L.hosts`, in order —
+    and numbers the names as they come (`t[i].host`, `t[i].nodeid = i`, `dshThreads`).  Hence thread i is for the i-th
+    host of `targets.filter (· ∉ excluded) |>.filter passes`, and its rank is i: ranks are counted AFTER the exclusions
+    and filters, along the final list -/
+theorem rank_is_index (cfg : Cfg) (hD1 : cfg.fixDeleteAll = true) (hD17 : cfg.fixIterSuffix = true)
+    (hD19 : cfg.fixRemoveDepth = true) (env : Env) (ws : List CW) (hd : Domain cfg env ws) :
+    ∃ L, cliWordsL cfg env (ws.map CW.text) = .ok L ∧ L.Good ∧
+      cliWords cfg env (ws.map CW.text) = .ok L.hosts ∧
+      iterAll cfg L L.nhosts.toNat = specWords env ws ∧
+      dshThreads cfg L = (specWords env ws).zipIdx := by
+  obtain ⟨L, hL, hg, hh⟩ := cliWordsL_correct cfg hD1 hD17 hD19 env ws hd
+  have hit : iterAll cfg L L.nhosts.toNat = specWords env ws := by
+    rw [PdshVerif.C01.iter_all_repaired cfg hD17 L hg _ (by have := hg.2; omega), hh]
+  refine ⟨L, hL, hg, ?_, hit, ?_⟩
+  · rw [cliWords_eq_cliWordsL, hL]
+  · unfold dshThreads
+    rw [hit]
+
+/-- … composed with the transport (C09 `rank_is_position` imported: `connectAll` hands the transport of target k the
+    rank k) and with the fan-out (C03, through `started_nodup_lt`): in EVERY execution, a connect started for list
+    position i goes to the i-th host of the specification's list, with rank i — for every registry of `user@` /
+    `rcmd_type:` words and every configuration of the transports -/
+theorem contacted_with_rank (cfg : Cfg) (hD1 : cfg.fixDeleteAll = true) (hD17 : cfg.fixIterSuffix = true)
+    (hD19 : cfg.fixRemoveDepth = true) (env : Env) (ws : List CW) (hd : Domain cfg env ws)
+    (rcfg : Rcmd.Cfg) (rwords : List Rcmd.Word) (lines : List Rcmd.Line)
+    (v : Dsh.Fan.Variant) (f : Nat) (ls : List Dsh.Fan.Label) (s : Dsh.Fan.St)
+    (he : Dsh.Fan.Exec (Dsh.Fan.init v f (specWords env ws).length) ls s) :
+    ∃ L, cliWordsL cfg env (ws.map CW.text) = .ok L ∧
+      (Rcmd.run rcfg rwords (iterAll cfg L L.nhosts.toNat) = .lines lines →
+        ∀ i ∈ started ls, ∃ (h1 : i < lines.length) (h2 : i < (specWords env ws).length),
+          lines[i].rank = i ∧ lines[i].host = (specWords env ws)[i] ∧
+          (dshThreads cfg L)[i]? = some ((specWords env ws)[i], i)) := by
+  obtain ⟨L, hL, _, _, hit, hth⟩ := rank_is_index cfg hD1 hD17 hD19 env ws hd
+  refine ⟨L, hL, fun hrun i hi => ?_⟩
+  rw [hit] at hrun
+  obtain ⟨hlen, hall⟩ := PdshVerif.C09.rank_is_position rcfg rwords _ lines hrun
+  have hlt : i < (specWords env ws).length := (started_nodup_lt he).2 i hi
+  have h1 : i < lines.length := by omega
+  refine ⟨h1, hlt, (hall i h1 hlt).1, (hall i h1 hlt).2, ?_⟩
+  rw [hth, List.getElem?_zipIdx, List.getElem?_eq_getElem hlt]
+  simp
+
+/-- non-vacuity, through the theorem: the demo command line (`-w foo[1-3],bar -x foo2`, names matching `3` dropped)
+    leaves foo1 with rank 0 and bar with rank 1 — bar is the FOURTH name typed and the second of the final list -/
+example : ∃ L, cliWordsL Cfg.repaired demoEnv (demoWords.map CW.text) = .ok L ∧
+    dshThreads Cfg.repaired L = [("foo1".toList, 0), ("bar".toList, 1)] := by
+  obtain ⟨L, hL, _, _, _, hth⟩ := rank_is_index Cfg.repaired rfl rfl rfl demoEnv demoWords demo_domain
+  refine ⟨L, hL, ?_⟩
+  rw [hth]
+  have : specWords demoEnv demoWords = ["foo1".toList, "bar".toList] := by
+    have h1 := exclusion_correct Cfg.repaired rfl rfl rfl demoEnv demoWords demo_domain
+    rw [demo_correct] at h1
+    exact (Res.ok.inj h1).symm
+  rw [this]
+  rfl
+
+/-! ### the buffer loop of `list_push_hostlist` (D2, F02-XFILE-4MIB) -/
+/-- TERMINATION (the repaired loop of /repo b20e58e, no ceiling): whatever the length of the exclusion text the loop
+    ends within the fuel the driver passes (`PUSH_FUEL`, inside it `GROW_FUEL` = 52 doublings from 4096 to 2^63) -/
 theorem pushHostlist_terminates (len : Nat) : ∃ n, pushLoop true len PUSH_FUEL 4096 = some n :=
-  pushLoop_fixed_terminates len 12 4096 (by decide)
+  pushLoop_fixed_terminates len
+
+/-- `pushHostlistR` (the repaired `list_push_hostlist`) TERMINATES FOR EVERY LIST, and never hands on a cut text:
+    the entry pushed on `exclude_list` is the whole ranged text of the exclusion file, or — only when that text has
+    2^63 - 1 bytes or more, where `n` can no longer be doubled in a `size_t` — pdsh ends with a diagnostic -/
+theorem pushHostlistR_terminates_whole (hl : EL) :
+    pushHostlistR hl = .ok (rangedText hl.ranges) ∨
+    (pushHostlistR hl = .error (.fatal "exclusion list too long") ∧ (rangedText hl.ranges).length ≥ 2 ^ 63 - 1) :=
+  pushHostlist_fixed Cfg.repaired rfl hl
 
 /-- D2: the unchanged loop (`n*=2 < 0x7fffff`, i.e. `n *= 1`) never ends once the ranged form of an
     exclusion file needs 4095 bytes or more — no amount of fuel gets `pdsh` out of `opt_args` -/
@@ -349,23 +469,51 @@ theorem pushHostlist_unchanged_small (len : Nat) (h : len < 4095) (fuel : Nat) :
   have : ¬ len ≥ 4096 - 1 := by omega
   simp [this]
 
-/-- EXCLUSION FILE, D2 repaired: as long as the ranged form of the file is shorter than 2^22 - 1 bytes the entry
-    pushed on `exclude_list` is the whole text ... -/
+/-- EXCLUSION FILE, D2 repaired (every `cfg` with the switch; the model `pdshmodel hl xcl` runs with the probed
+    one): the entry pushed on `exclude_list` is the WHOLE ranged text — no ceiling at 4 MiB or anywhere else a
+    text can reach -/
 theorem exclusion_file_whole (cfg : Cfg) (hfix : cfg.fixPushLoop = true) (hl : EL)
-    (h : (rangedText hl.ranges).length < 2 ^ 22 - 1) : pushHostlist cfg hl = .ok (rangedText hl.ranges) :=
+    (h : (rangedText hl.ranges).length < 2 ^ 63 - 1) : pushHostlist cfg hl = .ok (rangedText hl.ranges) :=
   pushHostlist_whole cfg hfix hl h
 
-/-- ... F02-XFILE-4MIB: from 2^22 - 1 bytes on the ceiling `0x7fffff` ends the loop after the attempt with a
-    4 MiB block, whose CUT text is pushed: the hosts behind the cut are still contacted (observed on the real pdsh:
-    a file of 10^6 names, the 500 000th and the last are contacted).  The statement of the property
-    ("whatever the size of the exclusion list") is FALSE of the code from that size on; the model stops there. -/
-theorem exclusion_file_cut (cfg : Cfg) (hfix : cfg.fixPushLoop = true) (hl : EL)
-    (h : (rangedText hl.ranges).length ≥ 2 ^ 22 - 1) :
-    pushHostlist cfg hl = .error (.ub "exclusion text cut at 4 MiB") :=
-  pushHostlist_cut cfg hfix hl h
+/-- `pushHostlistR` IS `pushHostlist` under the D2 switch -/
+theorem exclusion_file_repaired (cfg : Cfg) (hfix : cfg.fixPushLoop = true) (hl : EL) :
+    pushHostlist cfg hl = pushHostlistR hl :=
+  pushHostlist_eq_R cfg hfix hl
 
-/-- the loop without ceiling (findings/C02-XFILE4M.patch) hands on the whole text whatever its length -/
-theorem exclusion_file_repaired (hl : EL) : pushHostlistR hl = .ok (rangedText hl.ranges) := rfl
+/-- non-vacuity: a list of two records (`a`, `b[1-2]`), its ranged text, pushed whole -/
+example : pushHostlistR ⟨[⟨0, ⟨"a".toList, 0, 0, 0, true⟩⟩, ⟨1, ⟨"b".toList, 1, 2, 1, false⟩⟩], 3, 2, []⟩ =
+    .ok "a,b[1-2]".toList := by
+  rw [← exclusion_file_repaired Cfg.repaired rfl, exclusion_file_whole Cfg.repaired rfl _ (by decide)]
+  exact congrArg Except.ok (by decide)
+
+/-- F02-XFILE-4MIB (repaired in /repo by b20e58e; the loop as it was before, `pushHostlistCeil`, is NOT what the
+    model executes): with the ceiling `(n *= 2) < 0x7fffff` the entry was whole below 2^22 - 1 bytes ... -/
+theorem exclusion_file_ceiling_whole (hl : EL) (h : (rangedText hl.ranges).length < 2 ^ 22 - 1) :
+    pushHostlistCeil hl = .ok (rangedText hl.ranges) :=
+  pushHostlistCeil_whole hl h
+
+/-- ... and from 2^22 - 1 bytes on the ceiling ended the loop after the attempt with a 4 MiB block, whose CUT text
+    was pushed: the hosts behind the cut were still contacted (observed on the real pdsh before b20e58e: a file of
+    10^6 names, the 500 000th and the last are contacted).  A revert of b20e58e is reported by the check with the
+    file of exactly 2^22 - 1 bytes as replay (checks/c02.py `big_xfile`). -/
+theorem exclusion_file_cut (hl : EL) (h : (rangedText hl.ranges).length ≥ 2 ^ 22 - 1) :
+    pushHostlistCeil hl = .error (.ub "exclusion text cut at 4 MiB") :=
+  pushHostlistCeil_cut hl h
+
+/-! ### what the driver executes -/
+/-- THE DRIVER EXECUTES THE MODEL: `pdshmodel hl xcl` runs `cliFinalWF` (Opt/ExcludeFast.lean: the lists kept last
+    record first, the pop loop of `hostlist_delete` replaced by what `popAll_spec` proves it returns when that lemma's
+    decidable side conditions hold — linear in the size of the exclusion files, so that a file of 4 MiB runs through the
+    model) and for EVERY variant, environment, `WCOLL` and command line it returns what the model `cliFinalW` returns -/
+theorem fast_path_is_model (cfg : Cfg) (env : Env) (wcollEnv : Option Str) (evs : List Ev) :
+    cliFinalWF cfg env wcollEnv evs = cliFinalW cfg env wcollEnv evs :=
+  cliFinalWF_eq cfg env wcollEnv evs
+
+/-- … in particular, without `WCOLL`, what the theorems above call `cliFinal` -/
+theorem fast_path_is_cliFinal (cfg : Cfg) (env : Env) (evs : List Ev) :
+    cliFinalWF cfg env none evs = cliFinal cfg env evs := by
+  rw [cliFinalWF_eq, cliFinalW_none]
 
 /-! ### the specification -/
 /-- ORDER INDEPENDENCE: exclusions and filters may stand anywhere among the targets (and in any
